@@ -75,6 +75,11 @@ class Session:
                 for k in ('reply', 'error'):
                     ops.append(['peer', i, k])
                 ops.append(['peerq', i, 'reply'])
+                # the peer numbers its messages independently: its reply to call i may itself carry the serial number of
+                # another call that is still outstanding here
+                for j, cj in self.calls.items():
+                    if j != i and cj['state'] == 'pending':
+                        ops.append(['peer', i, 'reply', j])
             ops.append(['peer', -1, 'reply'])
             if not any(q == (-1, 'bigsig') for q in self.queued):
                 # a 9 KB unrelated signal written (unread) ahead of later replies: a blocking wait then wakes up at least
@@ -123,9 +128,11 @@ class Session:
                     continue       # its reply is already in the incoming queue: the timeout was removed when it arrived
                 self.complete(i, ('timeout', None))
 
-    def peer_msg(self, i, kind):
+    def peer_msg(self, i, kind, own=None):
         self.peer_serial += 1
         rs = self.calls[i]['serial'] if i in self.calls else 99999
+        if own is not None:
+            return R.encode_message(R.method_return(own, rs, None, [R.U(1)])).hex()
         if kind == 'bigsig':
             m = R.signal(self.peer_serial, '/s', 's.s', 'Big', [R.S('b' * 9000)])
         elif kind == 'reply':
@@ -208,7 +215,9 @@ class Session:
             i, k = op[1], op[2]
             self.queued.append((i, k))
             self.process_queue()
-            resp = self.h.cmd('PEER ' + self.peer_msg(i, k))
+            if len(op) > 3:
+                self.hit('reply-numbered-like-another-outstanding-call')
+            resp = self.h.cmd('PEER ' + self.peer_msg(i, k, self.calls[op[3]]['serial'] if len(op) > 3 else None))
         elif kind == 'peerq':
             i, k = op[1], op[2]
             hx = self.peer_msg(i, k)
